@@ -162,3 +162,55 @@ fn hold_and_normal(span_count: i32) {
 fn u10_hold_and_normal_s1() {
     hold_and_normal(1);
 }
+
+//@ obl: id=U10.slider_note.duration harness=u10_slider_note_duration props=C19 tier=quick kind=proof
+//@ fns: Pattern::new_slider_note, Pattern::add_slider_note
+//@ bound: loop-free (one push); all i32 start <= end, key counts 1..=10, every column below the key count
+//@ clause: the note a path-object generator emits for [start, end] starts at `start`, is a circle when start == end and otherwise a hold note of duration end - start (never negative), at the x position of its column - identically for new_slider_note and add_slider_note
+#[kani::proof]
+#[kani::unwind(4)]
+fn u10_slider_note_duration() {
+    let total_columns: i32 = kani::any();
+    kani::assume(total_columns >= 1 && total_columns <= 10);
+    let column: u8 = kani::any();
+    kani::assume((column as i32) < total_columns);
+    let h = HitObject { pos: Pos::new(100.0, 192.0), start_time: 1000.0, kind: HitObjectKind::Circle };
+    let map = Beatmap::default();
+    let mut random = Random::new(1);
+    let prev = Pattern::default();
+    let sounds: [HitSoundType; 0] = [];
+    let gen = PathObjectPatternGenerator {
+        segment_duration: 100,
+        sample: HitSoundType::default(),
+        inner: PatternGenerator::new(&h, total_columns, &mut random, &map),
+        start_time: 0,
+        end_time: 0,
+        span_count: 1,
+        prev_pattern: &prev,
+        convert_type: PatternType::default(),
+        node_sounds: &sounds,
+    };
+    let (start, end): (i32, i32) = (kani::any(), kani::any());
+    kani::assume(start <= end);
+    let a = Pattern::new_slider_note(&gen, column, start, end);
+    let mut b = Pattern::default();
+    b.add_slider_note(&gen, column, start, end);
+    let mut k = 0;
+    while k < 2 {
+        let obj = if k == 0 { &a.hit_objects[0] } else { &b.hit_objects[0] };
+        assert!(obj.start_time == f64::from(start), "C19 generated note starts at the requested time");
+        match obj.kind {
+            HitObjectKind::Circle => assert!(start == end, "C19 zero-length notes are circles"),
+            HitObjectKind::Hold(ref hold) => {
+                assert!(start < end && hold.duration == f64::from(end) - f64::from(start), "C19 hold duration is end - start");
+                assert!(hold.duration >= 0.0, "C19 generated hold notes have non-negative duration");
+            }
+            _ => assert!(false, "C19 generators emit circles and hold notes only"),
+        }
+        k += 1;
+    }
+    assert!(a.hit_objects.len() == 1 && b.hit_objects.len() == 1, "C19 exactly one note is emitted");
+    assert!(a.column_has_obj(column) && b.column_has_obj(column), "C19 the note's column is marked as occupied");
+    std::mem::forget(a);
+    std::mem::forget(b);
+}
